@@ -15,8 +15,8 @@ RULE = ("port lists of 0..6 entries (handed over as a list, a tuple, a one-shot 
 TRUSTED = ["pyserial's comports() replaced by a generated enumeration (device, description, hwid)"]
 ASSUMPTIONS = ["ASCII descriptor strings"]
 
-NAMES = ["", "Bot", "Axi", "AxiDraw", "Axi 2", "East", "EAST", "x", "ab", "Plotter_01", "0123456789abcdef"]
-TAGS = ["", "A1", "ABC", "Bot", "East", "X9F3", "Axi 2", "12", "AXIDRAW_ONE", "A_B", "East_Lab_2"]
+NAMES = ["", "Bot", "Axi", "AxiDraw", "Axi 2", "East", "EAST", "x", "ab", "Plotter_01", "0123456789abcdef", "Comet", "COMPASS", "com", "/dev/lab"]          # names that look like the beginning of a port enumeration
+TAGS = ["", "A1", "ABC", "Bot", "East", "X9F3", "Axi 2", "12", "AXIDRAW_ONE", "A_B", "East_Lab_2", "Comet", "COM", "compass_2", "/dev/2"]
 
 def _port(rng, k):
     kind = rng.random()
